@@ -96,6 +96,10 @@ def _format_terms(terms: Iterable[tuple[TVector, cirq.TParamValComplex]], format
     return s
 
 
+def _accept_all(vector: Any) -> bool:
+    return True
+
+
 class LinearDict(Generic[TVector], MutableMapping[TVector, 'cirq.TParamValComplex']):
     """Represents linear combination of things.
 
@@ -128,7 +132,7 @@ class LinearDict(Generic[TVector], MutableMapping[TVector, 'cirq.TParamValComple
                 are valid.
         """
         self._has_validator = validator is not None
-        self._is_valid = validator or (lambda x: True)
+        self._is_valid = validator or _accept_all
         self._terms: dict[TVector, cirq.TParamValComplex] = {}
         if terms is not None:
             self.update(terms)
